@@ -365,7 +365,7 @@ class C07Runner:
             op = self.sc["ops"][self.opi]
             self.opi += 1
             k = op["op"]
-            if k in ("ctrlz", "ctrlc"):
+            if k in ("ctrlz", "ctrlc", "sync"):
                 continue  # nothing in the foreground
             if k in ("sig", "exit"):
                 self.event_op(op)
@@ -638,6 +638,12 @@ class C07Runner:
             if self.wait_dirty:
                 choices.append("release")
             op = self.sc["ops"][self.opi] if self.opi < len(self.sc["ops"]) else None
+            if op is not None and op["op"] == "sync" and not self.finishing:
+                # (explicit sessions only) the shell collects what has happened so far before the next event
+                if self.wait_dirty:
+                    return True
+                self.opi += 1
+                continue
             if op is not None and op["op"] in ("sig", "exit", "ctrlz", "ctrlc") and not self.finishing:
                 choices.append("op")
             if not choices:
@@ -951,6 +957,13 @@ def explicit_cases():
         [{"op": "launch", "bg": True, "n": 2, "codes": [0, 0, 0]}, sig(1, SIGSTOP), sig(1, SIGCONT), {"op": "jobs"}, sig(0, SIGSTOP),
          {"op": "jobs"}, sig(1, SIGSTOP), {"op": "jobs"}, {"op": "bg", "job": 0, "bare": False}, {"op": "jobs"}],
     ]
+    # inside one foreground wait: a member stopped and continued from outside (each seen by the shell), then the other
+    # one ends -- the shell has to go on waiting for the continued member
+    S = {"op": "sync"}
+    sessions.append([{"op": "launch", "bg": False, "n": 2, "codes": [0, 0, 0]}, sig(0, SIGSTOP), S, sig(0, SIGCONT), S,
+                     {"op": "exit", "job": 0, "member": 1}, S, {"op": "jobs"}])
+    sessions.append([{"op": "launch", "bg": False, "n": 3, "codes": [0, 0, 0]}, sig(2, SIGSTOP), S, sig(2, SIGCONT), S,
+                     sig(0, SIGSTOP), S, sig(1, SIGSTOP), S, {"op": "jobs"}])
     sessions.append([{"op": "launch", "bg": False, "n": 2, "codes": [0, 0, 0], "forkfail": True}, {"op": "jobs"},
                      {"op": "launch", "bg": True, "n": 1, "codes": [0, 0, 0]}, {"op": "jobs"}])
     sessions.append([{"op": "launch", "bg": True, "n": 1, "codes": [0, 0, 0]},
